@@ -385,7 +385,8 @@ class UnitBuild:
                     j += 1
                 opens.append(T[j].end)
             for pos in sorted(opens, reverse=True):
-                body = body[:pos] + "\n" + _indent(spec.prefix, 12) + body[pos:]
+                bu = "\n".join(l for l in spec.prefix.splitlines() if l.strip().startswith("broadcast use"))
+                body = body[:pos] + "\n" + _indent(bu, 12) + body[pos:]
         for loop, rx, text in spec.injects:
             m = re.search(rx, body)
             if not m:
